@@ -39,6 +39,11 @@ type Pipe struct {
 	WriteErr func(i int, b []byte) error
 	// OnWrite is called after a Write was queued (token held).
 	OnWrite func(b []byte)
+	// Filter, if set, transforms every written chunk before it is logged and queued (man in the
+	// middle); returning nil drops the chunk.
+	Filter func(b []byte) []byte
+	// Consumed is the number of bytes handed to the reader so far.
+	Consumed int
 	// Delay, if > 0, makes data readable only that much virtual time after it was written.
 	Delay  time.Duration
 	ready  []time.Duration
@@ -122,6 +127,7 @@ func (p *Pipe) Read(b []byte) (int, error) {
 		}
 	}
 	p.queued -= n
+	p.Consumed += n
 	return n, nil
 }
 
@@ -138,6 +144,10 @@ func (p *Pipe) Write(b []byte) (int, error) {
 			return 0, err
 		}
 	}
+	n0 := len(b)
+	if p.Filter != nil {
+		b = p.Filter(b)
+	}
 	p.Log = append(p.Log, Stamp{len(p.Written), len(b), Elapsed()})
 	p.Written = append(p.Written, b...)
 	if len(b) > 0 {
@@ -151,7 +161,7 @@ func (p *Pipe) Write(b []byte) (int, error) {
 	if p.OnWrite != nil {
 		p.OnWrite(b)
 	}
-	return len(b), nil
+	return n0, nil
 }
 
 // Inject queues bytes for the reader without a scheduling point (driver use, token held).
